@@ -230,7 +230,7 @@ def Holder.apply (h : Holder) (src : Option Source) (abilityMap : List (Nat × N
   | .setModes true ms =>
     if h.charge.isNone then .error "bad-op" else .ok (h.onCharge fun c => c.setModes ms h.onFit h.state)
   | .setCharge charge =>
-    if !h.kind.holdsCharge then .error "AttributeError" else
+    if !h.kind.holdsCharge then .error "bad-op" else
     let fresh := charge.map fun (tid, ms) => ({ typeId := tid, modes := setModes [] ms } : Core)
     .ok { h with charge := if h.onFit then fresh.map fun c => c.load (Source.type? src c.typeId) h.state
                            else fresh }
